@@ -1,11 +1,11 @@
 #!/bin/sh
 # usage: tools/try_all_seeds.sh [outfile]   -- runs every seeded change against the quick check of its property
+# (each in its own scratch worktree through NFCPY_SRC, /repo itself is not touched)
 OUT="${1:-/tmp/try_all_seeds.log}"
 : > "$OUT"
 for d in /verif/seeded/*/; do
   id=$(basename "$d"); pid=${id%%-*}
   echo "=== $id" >> "$OUT"
-  timeout 1500 /verif/tools/try_seed.sh "$d/patch.diff" "$pid" --tier quick 2>&1 | grep -v conda | grep -E "signature|VIOLATION|exit=|PATCH|HARNESS" | cut -c1-260 | head -8 >> "$OUT"
-  git -C /repo checkout -- . 2>/dev/null
+  timeout 1800 /verif/tools/try_seed_wt.sh "$d/patch.diff" "$pid" --tier quick 2>&1 | grep -v conda | grep -E "signature|exit=|PATCH|HARNESS" | cut -c1-260 | head -12 >> "$OUT"
 done
 echo DONE >> "$OUT"
